@@ -30,7 +30,7 @@ pub static DEF: PropDef = PropDef {
         "panics are injected into C-API calls only while the model says the catcher is installed and enabled on that task (otherwise unwinding into extern \"C\" aborts by language rule)",
         "a failing call must replace the calling thread's last-error message; a succeeding call leaves it unchanged",
     ],
-    required_probes: &["c20.parse_ok", "c20.parse_err", "c20.nul_in_error", "c20.non_utf8", "c20.match_ok", "c20.status_panic", "c20.setter_fail", "c20.deser_fail", "c20.cross_task_error", "c20.hash", "c20.parse_panic", "c20.compile_panic", "c20.match_foreign", "c20.fail_burst"],
+    required_probes: &["c20.parse_ok", "c20.parse_err", "c20.nul_in_error", "c20.non_utf8", "c20.match_ok", "c20.status_panic", "c20.setter_fail", "c20.deser_fail", "c20.cross_task_error", "c20.hash", "c20.parse_panic", "c20.compile_panic", "c20.match_foreign", "c20.fail_burst", "c20.raw_json"],
     extra: None,
 };
 
